@@ -87,8 +87,25 @@ with has_jump_b (b : block) : bool :=
 with has_jump_hs (hs : handlers) : bool :=
   match hs with HNil => false | HCons h r => has_jump_b h || has_jump_hs r end.
 
-(* upper_ok: no break/continue, no loop else clause, no `while True`, no statement after
-   one that leaves the block, no try-finally *)
+(* may the statement complete normally?  (liberal reading: a non-empty protected body may
+   raise, so handlers and the code after a suppressing `with` are reachable) *)
+Fixpoint can_complete (s : stmt) : bool :=
+  match s with
+  | SReturn | SRaise | SBreak | SContinue => false
+  | SIf b e => can_complete_b b || can_complete_b e
+  | SLoop forever b e => negb forever
+  | SWith sup b => can_complete_b b || sup
+  | STry b hs e f => ((can_complete_b b && can_complete_b e) || can_complete_hs hs) && can_complete_b f
+  | _ => true
+  end
+with can_complete_b (b : block) : bool :=
+  match b with BNil => true | BCons s r => can_complete s && can_complete_b r end
+with can_complete_hs (hs : handlers) : bool :=
+  match hs with HNil => false | HCons h r => can_complete_b h || can_complete_hs r end.
+
+(* upper_ok: no break/continue, no loop else clause, no `while True`, no try-finally, and no
+   dead code: nothing follows a statement that cannot complete normally, and a try body that
+   cannot complete normally has no else clause *)
 Fixpoint upper_ok_s (s : stmt) : bool :=
   match s with
   | SBreak | SContinue => false
@@ -96,12 +113,13 @@ Fixpoint upper_ok_s (s : stmt) : bool :=
   | SLoop forever b e => negb forever && is_nil e && upper_ok_b b
   | SWith _ b => upper_ok_b b
   | STry b hs e f => upper_ok_b b && upper_ok_hs hs && upper_ok_b e && is_nil f
+                     && (can_complete_b b || is_nil e)
   | _ => true
   end
 with upper_ok_b (b : block) : bool :=
   match b with
   | BNil => true
-  | BCons s r => upper_ok_s s && upper_ok_b r && (negb (leaves s) || is_nil r)
+  | BCons s r => upper_ok_s s && upper_ok_b r && (can_complete s || is_nil r)
   end
 with upper_ok_hs (hs : handlers) : bool :=
   match hs with
@@ -110,3 +128,16 @@ with upper_ok_hs (hs : handlers) : bool :=
   end.
 
 Definition upper_ok (p : block) : bool := upper_ok_b p.
+
+(* the fragment for which the upper bound is proved so far (stage 1): upper_ok programs built
+   from assignments, uses, calls, pass, return, raise and if/else *)
+Fixpoint flat_s (s : stmt) : bool :=
+  match s with
+  | SIf b e => flat_b b && flat_b e
+  | SLoop _ _ _ | SWith _ _ | STry _ _ _ _ => false
+  | _ => true
+  end
+with flat_b (b : block) : bool :=
+  match b with BNil => true | BCons s r => flat_s s && flat_b r end.
+
+Definition upper1_ok (p : block) : bool := upper_ok p && flat_b p.
